@@ -166,6 +166,30 @@ pub fn run(ctx: &Ctx) -> i32 {
         });
     }
 
+    // many tiles: ids beyond 255
+    if ctx.wants_family("many-tiles") {
+        let cases: Vec<(usize, u32)> = (0..3usize).flat_map(|fi| [256u32, 300, 1000].into_iter().map(move |n| (fi, n))).collect();
+        ctx.family("many-tiles", cases.len() as u64, "tilesets of 256 / 300 / 1000 tiles (2x1 pixels) and maps that use the ids around 255/256 and the last id; 3 pixel formats", true);
+        cases.par_iter().for_each(|(fi, n)| {
+            let case = || format!("fmt{} tiles={}", fi, n);
+            if !ctx.wants("many-tiles", &case) {
+                return;
+            }
+            let fmt = &fmts[*fi];
+            let mut f = gen::file(8, 3, fmt, &[10]);
+            if *fi == 2 {
+                f.frames[0].push(new_palette(0, pal_entries(10, 5)));
+            }
+            f.frames[0].push(Body::Tileset(tileset(3, *n, 2, 1, tile_pixels(fmt, *n, 2, 1, 9, (1, 9)), "many")));
+            f.frames[0].push(Body::Layer(Layer::tilemap("map", 3)));
+            let ids = vec![254, 255, 256 % n, 257 % n, n - 1, 1, 0, n - 2, 255, 128, n / 2, 256 % n];
+            f.frames[0].push(tm_cel(0, 0, 0, 255, 4, 3, ids));
+            let mut w = want.clone();
+            w.max_tile_images = 1024;
+            conform(ctx, "many-tiles", &case, &f, &w);
+        });
+    }
+
     // non-tilemap cels / layers: tilemap() must be None
     if ctx.wants_family("none") {
         let cases = [0, 1, 2, 3];
